@@ -73,6 +73,107 @@ def jOptStr : Option Str → Json
   | some s => jStr s
   | none => Json.null
 
+partial def getVal (j : Json) : Except String Val :=
+  match j with
+  | .null => pure .none
+  | .bool b => pure (.bool b)
+  | .num n => if n.exponent == 0 then pure (.int n.mantissa) else throw "non-integer number"
+  | .str s => pure (.str (Str.ofString s))
+  | .obj _ =>
+    let fld (k : String) : Option Json := (j.getObjVal? k).toOption
+    match fld "str", fld "bytes", fld "list", fld "tuple", fld "dict", fld "obj", fld "markup", fld "fn" with
+    | some (.str s), _, _, _, _, _, _, _ => pure (.str (Str.ofString s))
+    | _, some (.str s), _, _, _, _, _, _ => pure (.bytes (Str.ofString s))
+    | _, _, some (.arr a), _, _, _, _, _ => do let vs ← a.toList.mapM getVal; pure (.list vs)
+    | _, _, _, some (.arr a), _, _, _, _ => do let vs ← a.toList.mapM getVal; pure (.tuple vs)
+    | _, _, _, _, some (.arr a), _, _, _ => do
+      let kvs ← a.toList.mapM (fun kv => match kv with
+        | .arr #[k, v] => do let k' ← getVal k; let v' ← getVal v; pure (k', v')
+        | _ => throw "dict item")
+      pure (.dict kvs)
+    | _, _, _, _, _, some o, _, _ => do let i ← o.getNat?; pure (.obj i)
+    | _, _, _, _, _, _, some (.str s), _ => pure (.markup (Str.ofString s))
+    | _, _, _, _, _, _, _, some (.str s) => pure (.fn s)
+    | _, _, _, _, _, _, _, _ =>
+      if (fld "dflt").isSome then pure .dflt else throw "bad value spec"
+  | _ => throw "bad value spec"
+
+def getKVs (j : Json) : Except String (List (Val × Val)) := do
+  let a ← j.getArr?
+  a.toList.mapM (fun kv => match kv with
+    | .arr #[k, v] => do let k' ← getVal k; let v' ← getVal v; pure (k', v')
+    | _ => throw "pair expected")
+
+def getObjSpec (j : Json) : Except String ObjSpec := do
+  let sf ← getStr j "str"
+  let truthy := match j.getObjVal? "truthy" with | .ok (.bool b) => b | _ => true
+  let html : Option Str := match getStr j "html" with | .ok h => some h | _ => none
+  let attrs ← match j.getObjVal? "attrs" with
+    | .ok a => do
+      let kvs ← getKVs a
+      kvs.mapM (fun (k, v) => match k with | .str s => pure (s, v) | _ => throw "attr name")
+    | _ => pure []
+  let items ← match j.getObjVal? "items" with | .ok a => getKVs a | _ => pure []
+  let hasGetitem := match j.getObjVal? "getitem" with | .ok (.bool b) => b | _ => false
+  let translation : Option (Option Str) := match j.getObjVal? "translation" with
+    | .ok (.str s) => some (some (Str.ofString s))
+    | .ok (.obj _) => some none
+    | _ => none
+  pure { strForm := sf, truthy := truthy, html := html, attrs := attrs, items := items, hasGetitem := hasGetitem,
+         translation := translation }
+
+def jTCall (t : TCall) : Json :=
+  Json.mkObj [("msgid", jStr t.msgid),
+    ("mapping", match t.mapping with | some m => Json.mkObj (m.map (fun (k, v) => (k.toString, jStr v))) | none => Json.null),
+    ("default", jOptStr t.dflt), ("domain", jOptStr t.domain), ("context", jOptStr t.context), ("target", jOptStr t.target)]
+
+def jOutcome : Outcome → Json
+  | .out s log tlog handled => Json.mkObj [("out", jStr s), ("log", jArr (log.toList.map jStr)),
+      ("tlog", jArr (tlog.toList.map jTCall)), ("handled", jNat handled)]
+  | .templateError cls msg tok line col => Json.mkObj [("exc", "TemplateError"), ("cls", Json.str cls), ("msg", Json.str msg),
+      ("token", jStr tok.str), ("offset", jNat tok.pos), ("line", jNat line), ("col", jNat col)]
+  | .crash cls => Json.mkObj [("exc", "other"), ("cls", Json.str cls)]
+  | .raised e errs log tlog => Json.mkObj [("exc", "render"), ("cls", Json.str e.cls), ("msg", jStr e.msg),
+      ("errors", jArr (errs.map (fun r => jArr [jStr r.text, jNat r.line, jNat r.col]))),
+      ("log", jArr (log.toList.map jStr)), ("tlog", jArr (tlog.toList.map jTCall))]
+  | .unsupported why => Json.mkObj [("unsupported", Json.str why)]
+
+def getRenderReq (j : Json) : Except String RenderReq := do
+  let src ← getStr j "src"
+  let cfg := (j.getObjVal? "cfg").toOption.getD (Json.mkObj [])
+  let flag (k : String) (d : Bool) : Bool := match cfg.getObjVal? k with | .ok (.bool b) => b | _ => d
+  let vars ← match j.getObjVal? "vars" with
+    | .ok (.arr a) => a.toList.mapM (fun kv => match kv with
+        | .arr #[.str k, v] => do let v' ← getVal v; pure (Str.ofString k, v')
+        | _ => throw "var pair")
+    | _ => pure []
+  let tab ← match j.getObjVal? "objs" with
+    | .ok (.arr a) => a.toList.mapM getObjSpec
+    | _ => pure []
+  let oracle : PyOracle ← match j.getObjVal? "pyoracle" with
+    | .ok (.arr a) => a.toList.mapM (fun kv => match kv with
+        | .arr #[.str k, .null] => pure (Str.ofString k, none)
+        | .arr #[.str k, .str m] => pure (Str.ofString k, some (Str.ofString m))
+        | _ => throw "oracle pair")
+    | _ => pure []
+  let booleans : Option (List Str) := match cfg.getObjVal? "boolean_attributes" with
+    | .ok (.arr a) => some (a.toList.filterMap (fun x => match x with | .str s => some (Str.ofString s) | _ => none))
+    | _ => none
+  let q := getQuirks j
+  let rx := getRx j
+  let bcfg : BCfg := {
+    rx := rx,
+    q := q,
+    trimAttributeSpace := flag "trim_attribute_space" false,
+    enableDataAttributes := flag "enable_data_attributes" false,
+    enableCommentInterpolation := flag "enable_comment_interpolation" true,
+    restrictedNamespace := flag "restricted_namespace" true,
+    implicitI18nTranslate := flag "implicit_i18n_translate" false }
+  pure { src := src, textMode := flag "text_mode" false, strict := flag "strict" true, bcfg := bcfg,
+         booleanAttrs := booleans, oracle := oracle, tab := tab, vars := vars,
+         pyBuiltins := Gen.pyBuiltins, talesExc := Gen.talesExceptions, existsExc := Gen.existsExceptions,
+         excParents := Gen.excParents, htmlBooleans := Gen.booleanHtml.map Str.ofString }
+
 def handle (j : Json) : Except String Json := do
   let op ← getS j "op"
   match op with
@@ -104,6 +205,9 @@ def handle (j : Json) : Except String Json := do
     | "content" => pure (jArr (qs.map (fun v => jOptStr (quoteVal Site.content.q Site.content.qe dflt v))))
     | "none" => pure (jArr (qs.map (fun v => jOptStr (convertVal v))))
     | _ => throw "bad site"
+  | "render" =>
+    let r ← getRenderReq j
+    pure (jOutcome (render r))
   | "static" =>
     let s ← getStr j "s"
     pure (jSRes (staticRenderWith (getRx j) (getQuirks j) true s))
